@@ -23,6 +23,8 @@
 EXTENDS Naturals, Integers, Sequences, FiniteSets, TLC, JaqalGates
 
 EmptyFn == [x \in {} |-> x]
+\* object-level resolution recorded by the projection for a qubit argument (absent in model programs)
+NoRes == [ok |-> FALSE, reg |-> "", ix |-> 0]
 None == [k |-> "none"]
 
 \* ---------------------------------------------------------------- numbers
@@ -216,6 +218,19 @@ ArgRefsAlias(a, tab, fundNames) ==
   \/ a.k = "reg" /\ a.v \notin fundNames
   \/ a.k = "qubit" /\ a.base.k = "reg" /\ a.base.v \notin fundNames
 FundNames(prog) == { prog.regs[j].v : j \in { x \in DOMAIN prog.regs : prog.regs[x].k = "reg" } }
+
+\* every qubit argument of the main body whose OBJECT could be resolved by the implementation
+\* (NamedQubit.resolve_qubit) resolves to what the declarations of the same circuit say (C06; a pass that
+\* rebuilds the header but re-uses argument objects leaves references hanging off stale registers)
+ObjRefsFollowDecls(prog) ==
+  LET env == Env(prog, <<>>)
+      tab == RegTab(prog, env)
+      ss == BodyStmts(prog)
+  IN \A j \in DOMAIN ss : ss[j].k = "gate" =>
+        \A a \in DOMAIN ss[j].args :
+           LET x == ss[j].args[a] IN
+           (x.k \in {"qubit", "qalias"} /\ x.res.ok) =>
+              LET v == ArgV(x, env, tab, EmptyFn) IN v.k = "q" /\ v.reg = x.res.reg /\ v.ix = x.res.ix
 
 \* ---------------------------------------------------------------- static validity (C14, Appendix B.7)
 \* the harness compresses a native table identical to the exact family into a one-element tag
